@@ -380,122 +380,210 @@ theorem addKeys_dels : ∀ (l : List Key), addKeys (l.map Op.del) = []
   | [] => rfl
   | _ :: r => by simpa [addKeys] using addKeys_dels r
 
+theorem applyOps_append : ∀ (a b : List Op) (s : Snap),
+    applyOps s (a ++ b) = (applyOps s a).bind (fun s1 => applyOps s1 b)
+  | [], _, _ => rfl
+  | o :: r, b, s => by
+      simp only [List.cons_append, applyOps]
+      cases applyOp s o with
+      | none => rfl
+      | some s1 => exact applyOps_append r b s1
+
+/-- (row-set, dv id) pairs of the delete vectors snapshot `sp` has on the selected row-sets -/
+def dvPairs (sp : Snap) (sel : List Key) : List (Key × Nat) :=
+  sel.flatMap (fun key => (sp.dvs.filter (fun x => x.1 == key)).map (fun x => (key, x.2.1)))
+
+theorem dvDels_eq (sp : Snap) (sel : List Key) :
+    dvDels sp sel = (dvPairs sp sel).map (fun p => Op.delDv p.1 p.2) := by
+  simp only [dvDels, dvPairs, List.map_flatMap, List.map_map]
+  rfl
+
+theorem mem_dvPairs {sp : Snap} {sel : List Key} {p : Key × Nat} (h : p ∈ dvPairs sp sel) :
+    p.1 ∈ sel := by
+  simp only [dvPairs, List.mem_flatMap, List.mem_map] at h
+  obtain ⟨key, hk, x, _, rfl⟩ := h
+  exact hk
+
+/-- `DeleteDV` ops leave the row-sets alone and only touch the delete vectors of the row-sets they
+name -/
+theorem applyOps_delDvs : ∀ (l : List (Key × Nat)) {s s' : Snap},
+    applyOps s (l.map (fun p => Op.delDv p.1 p.2)) = some s' →
+    s'.rs = s.rs ∧ ∀ key, (∀ p ∈ l, p.1 ≠ key) → deadPos s' key = deadPos s key
+  | [], s, s', h => by simp only [List.map_nil, applyOps] at h; cases h; exact ⟨rfl, fun _ _ => rfl⟩
+  | p :: r, s, s', h => by
+      simp only [List.map_cons, applyOps, applyOp] at h
+      split at h
+      case h_2 => cases h
+      rename_i s1 h1
+      split at h1
+      case isFalse => cases h1
+      cases h1
+      obtain ⟨a, b⟩ := applyOps_delDvs r h
+      refine ⟨a, fun key hk => ?_⟩
+      rw [b key (fun q hq => hk q (List.mem_cons_of_mem _ hq))]
+      simp only [deadPos, List.filter_filter]
+      congr 1
+      apply List.filter_congr
+      intro x _
+      by_cases hx : x.1 = key
+      · have : (x.1 == p.1) = false := beq_false_of_ne (fun hh => hk p List.mem_cons_self (hh ▸ hx))
+        simp only [this, Bool.false_and, Bool.not_false, Bool.and_true]
+      · have : (x.1 == key) = false := beq_false_of_ne hx
+        simp only [this, Bool.false_and]
+
+theorem addKeys_append (a b : List Op) : addKeys (a ++ b) = addKeys a ++ addKeys b := by
+  induction a with
+  | nil => rfl
+  | cons o r ih => rw [List.cons_append, addKeys_cons, addKeys_cons o r, ih, List.append_assoc]
+
+theorem delKeys_append (a b : List Op) : delKeys (a ++ b) = delKeys a ++ delKeys b := by
+  induction a with
+  | nil => rfl
+  | cons o r ih => rw [List.cons_append, delKeys_cons, delKeys_cons o r, ih, List.append_assoc]
+
+theorem poolAdds_append (a b : List Op) : poolAdds (a ++ b) = poolAdds a ++ poolAdds b := by
+  induction a with
+  | nil => rfl
+  | cons o r ih => cases o <;> simp [poolAdds, ih]
+
+theorem addKeys_delDvs (l : List (Key × Nat)) : addKeys (l.map (fun p => Op.delDv p.1 p.2)) = [] := by
+  induction l with
+  | nil => rfl
+  | cons _ r ih => simpa [addKeys] using ih
+
+theorem delKeys_delDvs (l : List (Key × Nat)) : delKeys (l.map (fun p => Op.delDv p.1 p.2)) = [] := by
+  induction l with
+  | nil => rfl
+  | cons _ r ih => simpa [delKeys] using ih
+
+theorem poolAdds_delDvs (l : List (Key × Nat)) : poolAdds (l.map (fun p => Op.delDv p.1 p.2)) = [] := by
+  induction l with
+  | nil => rfl
+  | cons _ r ih => simpa [poolAdds] using ih
+
+/-- what the tables hold over a snapshot that has the new row-set instead of the selected ones
+and the same deleted positions on every row-set that was not selected -/
+theorem rows_after_compaction {pool pool2 : List (Key × List Int)} {S snap' : Snap} {t n : Nat}
+    {sel : List Key} {rows : List Int}
+    (hrs : snap'.rs = ((t, n) :: S.rs).filter (fun x => !sel.contains x))
+    (hdead : ∀ key, key ∉ sel → deadPos snap' key = deadPos S key)
+    (hselmem : ∀ x, x ∈ sel ↔ (x ∈ S.rs ∧ x.1 = t))
+    (hd : ∀ d ∈ sel, d.1 = t ∧ d ≠ (t, n))
+    (hnodv : deadPos S (t, n) = [])
+    (hl : lookupPool pool2 (t, n) = some rows)
+    (hpl : ∀ key ∈ S.rs, lookupPool pool2 key = lookupPool pool key) :
+    rowsAt? pool2 snap' t = some rows
+    ∧ ∀ t', t' ≠ t → rowsAt? pool2 snap' t' = rowsAt? pool S t' := by
+  have hnc : sel.contains (t, n) = false := by
+    simp only [List.contains_eq_mem, decide_eq_false_iff_not]
+    intro hm
+    exact (hd _ hm).2 rfl
+  have hnotsel : (t, n) ∉ sel := fun hm => (hd _ hm).2 rfl
+  constructor
+  · have htk : tableKeys snap' t = [(t, n)] := by
+      simp only [tableKeys, hrs, List.filter_cons, hnc, Bool.not_false, if_true, beq_self_eq_true]
+      congr 1
+      apply List.filter_eq_nil_iff.mpr
+      intro x hx
+      have hx' := List.mem_filter.mp hx
+      simp only [Bool.not_eq_true', List.contains_eq_mem, decide_eq_false_iff_not] at hx'
+      intro hxt
+      simp only [beq_iff_eq] at hxt
+      exact hx'.2 ((hselmem x).mpr ⟨hx'.1, hxt⟩)
+    simp only [rowsAt?, htk, scan?, hl, hdead _ hnotsel, hnodv, List.append_nil, List.map_map]
+    congr 1
+    simpa [Function.comp_def] using liveFrom_nil_vals 0 rows
+  · intro t' hne
+    have htk : tableKeys snap' t' = tableKeys S t' := by
+      have hbt : (t == t') = false := beq_false_of_ne (fun x => hne x.symm)
+      simp only [tableKeys, hrs, List.filter_cons, hnc, Bool.not_false, if_true, hbt,
+        Bool.false_eq_true, if_false, List.filter_filter]
+      apply List.filter_congr
+      intro x hx
+      by_cases hxt : x.1 = t'
+      · have hnm : x ∉ sel := fun hm => hne (hxt.symm.trans (hd x hm).1)
+        simp [hnm, hxt]
+      · have : (x.1 == t') = false := beq_false_of_ne hxt
+        simp [this]
+    simp only [rowsAt?, htk]
+    rw [scan?_live_congr (s := S) (s' := snap'), scan?_congr (fun key hk => hpl key (mem_tableKeys hk))]
+    intro key hkey rows' _
+    have hkt : key.1 = t' := by
+      have := (List.mem_filter.mp hkey).2
+      simpa using this
+    rw [hdead key (fun hm => hne (hkt.symm.trans (hd key hm).1))]
+
 /-- A compaction commit whose plan was made from the CURRENT snapshot (that is what
 `FreshSnapshot` gives, `fresh_plan_eq`): all row-sets `sel` of table `t`, merged live rows
-`rows` (non-empty), new id reserved, no delete vector names the new id.  Afterwards table `t`
-consists of exactly the merged rows — nothing lost, nothing resurrected — and every other table
-is unchanged. -/
+`rows`, new id reserved; changeset as the code builds it since /repo 5071ff5:
+`AddRowSet`, `DeleteRowSet` of every selected row-set, `DeleteDV` of every delete vector a
+snapshot `sp` (the one the pass pinned) has on them.  Afterwards table `t` consists of exactly
+the merged rows — nothing lost, nothing resurrected — and every other table is unchanged. -/
 theorem compaction_commit_exact {k k1 k2 : K} (h : KInv k) {th : Tid} {t n : Nat}
-    {sel : List Key} {rows : List Int}
+    {sel : List Key} {rows : List Int} (sp : Snap)
     (hplan : compactPlan? k k.epoch t = some (some (sel, rows)))
     (hnodv : deadPos (k.status k.epoch) (t, n) = [])
-    (hA : kCommitA k th (.add (t, n) rows :: sel.map Op.del) = some k1)
+    (hA : kCommitA k th (.add (t, n) rows :: (sel.map Op.del ++ dvDels sp sel)) = some k1)
     (hB : kCommitB k1 th = some k2) :
     curRows k2 t = some rows ∧ ∀ t', t' ≠ t → curRows k2 t' = curRows k t' := by
   obtain ⟨snap', hsnap, hok, he, hst, hpool⟩ := commit_result hA hB
-  -- the plan: sel = all keys of t, sorted
   simp only [compactPlan?] at hplan
   split at hplan
   · cases hplan
   split at hplan
-  · rename_i l hl
-    simp only [Option.some.injEq, Prod.mk.injEq] at hplan
-    obtain ⟨hsel, hrows⟩ := hplan
-    have hresv : (th, (t, n)) ∈ k.resv := opsOk_add hok (by simp [addKeys])
-    have hnew_not_in : (t, n) ∉ (k.status k.epoch).rs :=
-      h.resv_status _ hresv k.epoch (Nat.le_refl _)
-    have hselmem : ∀ x, x ∈ sel ↔ (x ∈ (k.status k.epoch).rs ∧ x.1 = t) := by
-      intro x
-      rw [← hsel, mem_sortKeys]
-      simp [tableKeys, List.mem_filter]
-    have hd : ∀ d ∈ sel, d.1 = t ∧ d ≠ (t, n) := by
-      intro d hdm
-      have := (hselmem d).mp hdm
-      exact ⟨this.2, fun heq => hnew_not_in (heq ▸ this.1)⟩
-    -- the snapshot after phase A
-    have hs' : snap' = { rs := ((t, n) :: (k.status k.epoch).rs).filter (fun x => !sel.contains x),
-                         dvs := (k.status k.epoch).dvs } := by
-      simp only [applyOps, applyOp] at hsnap
-      rw [applyOps_dels_eq t n sel _ hd List.mem_cons_self] at hsnap
-      cases hsnap
-      rfl
-    subst hs'
-    have hpl : ∀ key ∈ (k.status k.epoch).rs,
-        lookupPool (poolAdds (.add (t, n) rows :: sel.map Op.del) ++ k.pool) key = lookupPool k.pool key := by
-      intro key hk
-      apply lookupPool_append
-      rw [poolAdds_keys]
-      have : addKeys (.add (t, n) rows :: sel.map Op.del) = [(t, n)] := by
-        simp only [addKeys, addKeys_dels]
-      rw [this]
-      simp only [List.mem_singleton]
-      intro heq
-      exact hnew_not_in (heq ▸ hk)
-    constructor
-    · -- table t: only the new row-set
-      have htk : tableKeys { rs := ((t, n) :: (k.status k.epoch).rs).filter (fun x => !sel.contains x),
-                             dvs := (k.status k.epoch).dvs } t = [(t, n)] := by
-        have hnc : sel.contains (t, n) = false := by
-          simp only [List.contains_eq_mem, decide_eq_false_iff_not]
-          intro hm
-          exact (hd _ hm).2 rfl
-        simp only [tableKeys, List.filter_cons, hnc, Bool.not_false, if_true, beq_self_eq_true]
-        congr 1
-        apply List.filter_eq_nil_iff.mpr
-        intro x hx
-        have hx' := List.mem_filter.mp hx
-        simp only [Bool.not_eq_true', List.contains_eq_mem, decide_eq_false_iff_not] at hx'
-        intro hxt
-        simp only [beq_iff_eq] at hxt
-        exact hx'.2 ((hselmem x).mpr ⟨hx'.1, hxt⟩)
-      simp only [curRows, he, hst, hpool, rowsAt?, htk, scan?]
-      have hl : lookupPool (poolAdds (.add (t, n) rows :: sel.map Op.del) ++ k.pool) (t, n) = some rows := by
-        simp [lookupPool, poolAdds]
-      have hdp : deadPos { rs := ((t, n) :: (k.status k.epoch).rs).filter (fun x => !sel.contains x),
-                           dvs := (k.status k.epoch).dvs } (t, n) = [] := hnodv
-      simp only [hl, hdp, List.append_nil, List.map_map]
-      congr 1
-      simpa [Function.comp_def] using liveFrom_nil_vals 0 rows
-    · intro t' hne
-      have htk : tableKeys { rs := ((t, n) :: (k.status k.epoch).rs).filter (fun x => !sel.contains x),
-                             dvs := (k.status k.epoch).dvs } t' = tableKeys (k.status k.epoch) t' := by
-        have hnc : sel.contains (t, n) = false := by
-          simp only [List.contains_eq_mem, decide_eq_false_iff_not]
-          intro hm
-          exact (hd _ hm).2 rfl
-        have hbt : (t == t') = false := beq_false_of_ne (fun x => hne x.symm)
-        simp only [tableKeys, List.filter_cons, hnc, Bool.not_false, if_true, hbt,
-          Bool.false_eq_true, if_false, List.filter_filter]
-        apply List.filter_congr
-        intro x hx
-        by_cases hxt : x.1 = t'
-        · have hnm : x ∉ sel := fun hm => hne (hxt.symm.trans (hd x hm).1)
-          simp [hnm, hxt]
-        · have : (x.1 == t') = false := beq_false_of_ne hxt
-          simp [this]
-      simp only [curRows, he, hst, hpool, rowsAt?, htk]
-      have h1 := scan?_snap_congr (pool := poolAdds (.add (t, n) rows :: sel.map Op.del) ++ k.pool)
-        (s1 := { rs := ((t, n) :: (k.status k.epoch).rs).filter (fun x => !sel.contains x),
-                 dvs := (k.status k.epoch).dvs })
-        (s2 := k.status k.epoch) (fun key => rfl) (tableKeys (k.status k.epoch) t')
-      rw [h1, scan?_congr (fun key hk => hpl key (mem_tableKeys hk))]
-  · cases hplan
+  case h_2 => cases hplan
+  rename_i l hl
+  simp only [Option.some.injEq, Prod.mk.injEq] at hplan
+  obtain ⟨hsel, hrows⟩ := hplan
+  have hresv : (th, (t, n)) ∈ k.resv := opsOk_add hok (by simp [addKeys])
+  have hnew_not_in : (t, n) ∉ (k.status k.epoch).rs :=
+    h.resv_status _ hresv k.epoch (Nat.le_refl _)
+  have hselmem : ∀ x, x ∈ sel ↔ (x ∈ (k.status k.epoch).rs ∧ x.1 = t) := by
+    intro x
+    rw [← hsel, mem_sortKeys]
+    simp [tableKeys, List.mem_filter]
+  have hd : ∀ d ∈ sel, d.1 = t ∧ d ≠ (t, n) := by
+    intro d hdm
+    have := (hselmem d).mp hdm
+    exact ⟨this.2, fun heq => hnew_not_in (heq ▸ this.1)⟩
+  -- the snapshot after phase A
+  simp only [applyOps, applyOp] at hsnap
+  rw [applyOps_append, applyOps_dels_eq t n sel _ hd List.mem_cons_self, dvDels_eq] at hsnap
+  obtain ⟨hrs, hdead⟩ := applyOps_delDvs _ hsnap
+  have hadd : addKeys (.add (t, n) rows :: (sel.map Op.del ++ dvDels sp sel)) = [(t, n)] := by
+    simp only [addKeys, addKeys_append, addKeys_dels, dvDels_eq, addKeys_delDvs, List.append_nil]
+  have hpl : ∀ key ∈ (k.status k.epoch).rs,
+      lookupPool (poolAdds (.add (t, n) rows :: (sel.map Op.del ++ dvDels sp sel)) ++ k.pool) key
+        = lookupPool k.pool key := by
+    intro key hk
+    apply lookupPool_append
+    rw [poolAdds_keys, hadd]
+    simp only [List.mem_singleton]
+    intro heq
+    exact hnew_not_in (heq ▸ hk)
+  have hlk : lookupPool (poolAdds (.add (t, n) rows :: (sel.map Op.del ++ dvDels sp sel)) ++ k.pool) (t, n)
+      = some rows := by
+    simp [lookupPool, poolAdds]
+  have := rows_after_compaction (pool := k.pool) (S := k.status k.epoch) (snap' := snap') hrs
+    (fun key hk => hdead key (fun p hp heq => hk (heq ▸ mem_dvPairs hp))) hselmem hd hnodv hlk hpl
+  simp only [curRows, he, hst, hpool]
+  exact this
 
 /-- Putting it together for one compaction under the lock discipline: the compactor planned from
-the snapshot `e` it pinned at the start of the pass; if that snapshot is fresh for table `t` when
-the compaction commits, table `t` afterwards holds exactly the merged live rows of the CURRENT
-snapshot (so a DELETE committed in between is not undone and nothing is duplicated), and every
-other table is untouched. -/
+the snapshot `e` it pinned at the start of the pass (and takes the delete vectors to delete from
+it); if that snapshot is fresh for table `t` when the compaction commits, table `t` afterwards
+holds exactly the merged live rows of the CURRENT snapshot (so a DELETE committed in between is
+not undone and nothing is duplicated), and every other table is untouched. -/
 theorem compaction_fresh_exact {k k1 k2 : K} (h : KInv k) {th : Tid} {e t n : Nat}
     {sel : List Key} {rows : List Int} (hf : FreshSnapshot k e t)
     (hplan : compactPlan? k e t = some (some (sel, rows)))
     (hnodv : deadPos (k.status k.epoch) (t, n) = [])
-    (hA : kCommitA k th (.add (t, n) rows :: sel.map Op.del) = some k1)
+    (hA : kCommitA k th (.add (t, n) rows :: (sel.map Op.del ++ dvDels (k.status e) sel)) = some k1)
     (hB : kCommitB k1 th = some k2) :
     compactPlan? k k.epoch t = some (some (sel, rows))
     ∧ curRows k2 t = some rows ∧ ∀ t', t' ≠ t → curRows k2 t' = curRows k t' := by
   have hp : compactPlan? k k.epoch t = some (some (sel, rows)) := by rw [← fresh_plan_eq hf]; exact hplan
-  exact ⟨hp, compaction_commit_exact h hp hnodv hA hB⟩
+  exact ⟨hp, compaction_commit_exact h (k.status e) hp hnodv hA hB⟩
 
 /-- ... and those merged rows are a permutation of what the table held before: the compaction
 scans the same row-sets in id order instead of snapshot order. -/
@@ -666,11 +754,11 @@ theorem poolAdds_dels : ∀ (l : List Key), poolAdds (l.map Op.del) = []
 deleted): the changeset only removes the row-sets; the table is empty afterwards, as it was, and
 every other table is unchanged. -/
 theorem compaction_empty_commit_exact {k k1 k2 : K} {th : Tid} {t : Nat} {sel : List Key}
-    (hplan : compactPlan? k k.epoch t = some (some (sel, [])))
-    (hA : kCommitA k th (sel.map Op.del) = some k1) (hB : kCommitB k1 th = some k2) :
+    (sp : Snap) (hplan : compactPlan? k k.epoch t = some (some (sel, [])))
+    (hA : kCommitA k th (sel.map Op.del ++ dvDels sp sel) = some k1) (hB : kCommitB k1 th = some k2) :
     curRows k2 t = some [] ∧ ∀ t', t' ≠ t → curRows k2 t' = curRows k t' := by
   obtain ⟨snap', hsnap, _, he, hst, hpool⟩ := commit_result hA hB
-  rw [poolAdds_dels, List.nil_append] at hpool
+  rw [poolAdds_append, poolAdds_dels, dvDels_eq, poolAdds_delDvs, List.nil_append, List.nil_append] at hpool
   simp only [compactPlan?] at hplan
   split at hplan
   · cases hplan
@@ -683,6 +771,10 @@ theorem compaction_empty_commit_exact {k k1 k2 : K} {th : Tid} {t : Nat} {sel : 
     intro x
     rw [← hsel, mem_sortKeys]
     simp [tableKeys, List.mem_filter]
+  have haddk : addKeys (sel.map Op.del ++ dvDels sp sel) = [] := by
+    rw [addKeys_append, addKeys_dels, dvDels_eq, addKeys_delDvs]; rfl
+  have hdelk : delKeys (sel.map Op.del ++ dvDels sp sel) = sel := by
+    rw [delKeys_append, delKeys_dels, dvDels_eq, delKeys_delDvs, List.append_nil]
   constructor
   · have hnil : tableKeys snap' t = [] := by
       apply List.filter_eq_nil_iff.mpr
@@ -690,14 +782,28 @@ theorem compaction_empty_commit_exact {k k1 k2 : K} {th : Tid} {t : Nat} {sel : 
       simp only [beq_iff_eq] at hxt
       rcases applyOps_mem _ hsnap hx with h1 | h1
       · have hxs : x ∈ sel := (hselmem x).mpr ⟨h1, hxt⟩
-        exact applyOps_del _ hsnap (by rw [delKeys_dels]; exact hxs) (by rw [addKeys_dels]; simp) hx
-      · rw [addKeys_dels] at h1; cases h1
+        exact applyOps_del _ hsnap (by rw [hdelk]; exact hxs) (by rw [haddk]; simp) hx
+      · rw [haddk] at h1; cases h1
     simp only [curRows, he, hst, rowsAt?, hnil, scan?, List.map_nil]
   · intro t' hne
-    obtain ⟨a, b⟩ := applyOps_dels_other hne sel (fun d hd => ((hselmem d).mp hd).2) hsnap
-    simp only [curRows, he, hst, hpool, rowsAt?, a]
-    rw [scan?_snap_congr (s1 := snap') (s2 := k.status k.epoch)
-      (fun key => by simp only [deadPos, b])]
+    rw [applyOps_append] at hsnap
+    cases hs1 : applyOps (k.status k.epoch) (sel.map Op.del) with
+    | none => simp [hs1] at hsnap
+    | some s1 =>
+      simp only [hs1, Option.bind_some, dvDels_eq] at hsnap
+      obtain ⟨a, b⟩ := applyOps_dels_other hne sel (fun d hd => ((hselmem d).mp hd).2) hs1
+      obtain ⟨hrs, hdead⟩ := applyOps_delDvs _ hsnap
+      have htk : tableKeys snap' t' = tableKeys (k.status k.epoch) t' := by
+        rw [← a]; simp only [tableKeys, hrs]
+      simp only [curRows, he, hst, hpool, rowsAt?, htk]
+      rw [scan?_live_congr (s := k.status k.epoch) (s' := snap')]
+      intro key hkey rows' _
+      have hkt : key.1 = t' := by
+        have := (List.mem_filter.mp hkey).2
+        simpa using this
+      have hns : key ∉ sel := fun hm => hne (hkt.symm.trans ((hselmem key).mp hm).2)
+      rw [hdead key (fun p hp heq => hns (heq ▸ mem_dvPairs hp))]
+      simp only [deadPos, b]
 
 /-! ### final_state_exact -/
 
@@ -721,11 +827,12 @@ theorem final_state_exact {k : K} (h : KInv k) (hd : DvInv k) :
         ∧ ∀ t', t' ≠ t → curRows k2 t' = curRows k t')
     ∧ (∀ th e t n sel rows k1 k2, FreshSnapshot k e t →
         compactPlan? k e t = some (some (sel, rows)) →
-        kCommitA k th (.add (t, n) rows :: sel.map Op.del) = some k1 → kCommitB k1 th = some k2 →
+        kCommitA k th (.add (t, n) rows :: (sel.map Op.del ++ dvDels (k.status e) sel)) = some k1 →
+        kCommitB k1 th = some k2 →
         (∀ r, curRows k t = some r → ∃ r', curRows k2 t = some r' ∧ r'.Perm r)
         ∧ ∀ t', t' ≠ t → curRows k2 t' = curRows k t')
     ∧ (∀ th e t sel k1 k2, FreshSnapshot k e t → compactPlan? k e t = some (some (sel, [])) →
-        kCommitA k th (sel.map Op.del) = some k1 → kCommitB k1 th = some k2 →
+        kCommitA k th (sel.map Op.del ++ dvDels (k.status e) sel) = some k1 → kCommitB k1 th = some k2 →
         (∀ r, curRows k t = some r → ∃ r', curRows k2 t = some r' ∧ r'.Perm r)
         ∧ ∀ t', t' ≠ t → curRows k2 t' = curRows k t')
     ∧ (∀ k', KStep k k' → k'.epoch = k.epoch → ∀ t, curRows k' t = curRows k t) := by
@@ -748,11 +855,11 @@ theorem final_state_exact {k : K} (h : KInv k) (hd : DvInv k) :
     exact delete_commit_exact hh hA hB
   · intro th e t n sel rows k1 k2 hf hp hA hB
     rw [fresh_plan_eq hf] at hp
-    obtain ⟨a, b⟩ := compaction_commit_exact h hp (resvOf hA (by simp [addKeys])) hA hB
+    obtain ⟨a, b⟩ := compaction_commit_exact h (k.status e) hp (resvOf hA (by simp [addKeys])) hA hB
     exact ⟨fun r hr => ⟨rows, a, compaction_rows_perm hp hr⟩, b⟩
   · intro th e t sel k1 k2 hf hp hA hB
     rw [fresh_plan_eq hf] at hp
-    obtain ⟨a, b⟩ := compaction_empty_commit_exact hp hA hB
+    obtain ⟨a, b⟩ := compaction_empty_commit_exact (k.status e) hp hA hB
     exact ⟨fun r hr => ⟨[], a, compaction_rows_perm hp hr⟩, b⟩
 
 end SC
